@@ -259,10 +259,10 @@ theorem groundEffects_error {W : World} {σ : Subst} : ∀ {es : List Effect} {a
         | some acc' => rw [hs] at h; exact groundEffects_error h
 
 theorem ground_error {W : World} {a : Action} {args : List String} {x : EvalErr}
-    (h : ground W a args = .error x) : x = .other := by
-  unfold ground at h
+    (h : groundT W a args = .error x) : x = .other := by
+  unfold groundT at h
   dsimp only at h
-  cases hg : groundEffects W (paramSubst W.P a args) a.effs ⟨[], []⟩ [] with
+  cases hg : groundEffects W (paramSubstT W.P a args) a.effs ⟨[], []⟩ [] with
   | error y =>
     rw [hg] at h
     simp only [Except.error.injEq] at h
@@ -313,7 +313,7 @@ theorem metricStep_ne_missing {W : World} {m : Option Metric} {s : SimState} {ac
     · cases h
     · split at h
       · cases h
-      · cases he : eval (ctx W s) [] (substE (paramSubst W.P ai.1 ai.2) _) with
+      · cases he : eval (ctx W s) [] (substE (paramSubstT W.P ai.1 ai.2) _) with
         | error e => rw [he] at h; cases e <;> cases h
         | ok v => rw [he] at h; cases v <;> cases h
   · cases h
